@@ -189,6 +189,9 @@ func (p Path) CleanDot() Path {
 	}
 
 	parts := p.Parts()
+	if len(parts) == 1 && parts[0] == "" {
+		return "/"
+	}
 	return NewPath(strings.Join(parts, "/"))
 }
 
@@ -211,6 +214,9 @@ func (p Path) CleanPath() Path {
 
 	if len(parts) == 0 {
 		return "."
+	}
+	if len(parts) == 1 && parts[0] == "" {
+		return "/"
 	}
 	return NewPath(strings.Join(parts, "/"))
 }
